@@ -70,7 +70,12 @@ def ev_call(E, node, st):
                 raise OutsideSubset("old() outside a postcondition")
             o = st.old.copy()
             o.spec = 1
-            o.bound = st.bound
+            o.bound = list(st.bound)
+            if o.bound and isinstance(o.bound[0], dict) and "__entry__" in o.bound[0]:
+                # parameters mutated in place: old(p) is the value at entry
+                fr0 = dict(o.bound[0])
+                fr0.update(o.bound[0]["__entry__"])
+                o.bound[0] = fr0
             o.pc = st.pc
             v = E.ev1p(node.args[0], o)
             yield st, v
@@ -484,6 +489,7 @@ def havoc_lv(E, st, expr, frame, hint):
         if isinstance(v, SVal):
             nv = E.fresh(v.ty, hint + "_" + node.id)
             nv = SVal(nv.t, nv.ty, v.origin)
+            frame.setdefault("__entry__", {})[node.id] = v
             frame[node.id] = nv
             if v.origin is not None:
                 E.assign_lv(st, v.origin, nv)
